@@ -208,29 +208,43 @@ class ExecBase:
     def is_dict(self, v):
         return isinstance(v, V) and isinstance(v.kind, tuple) and v.kind[0] == "dict"
 
-    def dict_fns(self):
+    def dict_fns(self, kind):
         w = self.w
-        return (w.uf("dict_has", z3.IntSort(), w.Ref, w.Ref, z3.BoolSort()), w.uf("dict_val", z3.IntSort(), w.Ref, w.Ref, w.Ref))
+        ks, vs = w.sort_of(kind[1]), w.sort_of(kind[2])
+        tag = f"{ks}_{vs}"
+        return (w.uf(f"dict_has:{ks}", z3.IntSort(), w.Ref, ks, z3.BoolSort()), w.uf(f"dict_val:{tag}", z3.IntSort(), w.Ref, ks, vs))
+
+    def dict_key(self, d, k):
+        if k is NONE:
+            return self.w.null
+        return self.coerce(k, d.kind[1]).t
 
     def dict_has(self, st, d, k):
-        has, _ = self.dict_fns()
-        kt = k.t if isinstance(k, V) else self.w.null
-        return z3.And(d.t != self.w.null, has(st.version("dict"), d.t, kt))
+        has, _ = self.dict_fns(d.kind)
+        return z3.And(d.t != self.w.null, has(st.version("dict"), d.t, self.dict_key(d, k)))
 
     def dict_get(self, st, d, k, default):
-        """d.get(k, default) for reference-valued dictionaries"""
-        _, val = self.dict_fns()
-        vk = self.w.base_kind(d.kind[2])
-        kt = k.t if isinstance(k, V) else self.w.null
-        dt = self.w.null if default is NONE else default.t
-        cls = self.w.cls(vk[1]) if isinstance(vk, tuple) and vk[0] == "ref" and vk[1] else None
-        return V(("ref", vk[1] if isinstance(vk, tuple) else None), z3.If(self.dict_has(st, d, k), val(st.version("dict"), d.t, kt), dt), cls)
+        """d.get(k, default)"""
+        _, val = self.dict_fns(d.kind)
+        raw = val(st.version("dict"), d.t, self.dict_key(d, k))
+        v = self.w.wrap(d.kind[2], raw)
+        if default is NONE:
+            if not (isinstance(v.kind, tuple) and v.kind[0] == "ref"):
+                raise EngineError("dict.get with None default on non-reference values")
+            dt = self.w.null
+        else:
+            dt = self.coerce(default, d.kind[2]).t
+        return V(v.kind, z3.If(self.dict_has(st, d, k), raw, dt), v.cls)
+
+    def dict_index(self, st, d, k):
+        _, val = self.dict_fns(d.kind)
+        return self.w.wrap(d.kind[2], val(st.version("dict"), d.t, self.dict_key(d, k)))
 
     def empty_dict(self, st, kind):
         w = self.w
         d = self.allocate_raw(st, "dict")
-        has, _ = self.dict_fns()
-        k = z3.Const(w.fresh_name("k"), w.Ref)
+        has, _ = self.dict_fns(kind)
+        k = z3.Const(w.fresh_name("k"), w.sort_of(kind[1]))
         v = z3.Int(w.fresh_name("dv"))
         st.assume(z3.ForAll([v, k], z3.Not(has(v, d, k)), patterns=[has(v, d, k)]))
         return V(kind, d)
